@@ -33,7 +33,9 @@ class Ephem(Speaker):
     def __init__(self, orbits, method=None, order=None):
         self._orbits = list(sorted(orbits, key=lambda x: x.date))
         self.method = self.LAGRANGE if method is None else method
-        self.order = order if isinstance(order, int) else self.DEFAULT_ORDER
+        # any integer type is an order (a numpy integer used to fall back silently
+        # on the default order)
+        self.order = self.DEFAULT_ORDER if order is None else int(order)
 
     def __iter__(self):
         self._i = -1
